@@ -73,6 +73,7 @@ package ro
 //@   ghost lastVal val = nil
 //@   inv n >= 0 && hasValue == (n > 0)
 //@   inv hasValue ==> last.A == lastCtx && last.B == lastVal
+//@   inv hasValue ==> lastCtx != nil
 //@   on next(ctx, value) : emits ; n' = n + 1 ; lastCtx' = ctx ; lastVal' = value
 //@   on complete(ctx) when n > 0 : emits Next(lastCtx, lastVal), Complete(ctx)
 //@   on complete(ctx) when n <= 0 : emits Error(ctx, ErrTailEmpty)
@@ -93,6 +94,7 @@ package ro
 //@   ghost lastVal val = nil
 //@   inv i == n && hasValue == found
 //@   inv hasValue ==> last.A == lastCtx && last.B == lastVal
+//@   inv hasValue ==> lastCtx != nil
 //@   on next(ctx, value) when predicate_1(ctx, value, n) : emits ; n' = n + 1 ; found' = true ; lastCtx' = predicate_0(ctx, value, n) ; lastVal' = value
 //@   on next(ctx, value) when !predicate_1(ctx, value, n) : emits ; n' = n + 1
 //@   on complete(ctx) when found : emits Next(lastCtx, lastVal), Complete(lastCtx)
@@ -121,6 +123,8 @@ package ro
 //@   note the circular buffer is part of the machine state: a full buffer emits the (context, value) pair stored in the slot that the new value overwrites
 //@   requires count >= 1
 //@   inv len(buffer) == count && 0 <= index && index < count && 0 <= size && size <= count
+//@   inv size < count ==> index == size
+//@   inv forall(j, 0, size, buffer[j].A != nil)
 //@   on next(ctx, value) when size < count : emits
 //@   on next(ctx, value) when size >= count : emits Next(buffer[index].A, buffer[index].B)
 
@@ -223,6 +227,7 @@ package ro
 //@   ghost mVal val = nil
 //@   inv n >= 0 && first == (n == 0)
 //@   inv !first ==> mIn.A == mCtx && mIn.B == mVal
+//@   inv !first ==> mCtx != nil
 //@   on next(ctx, value) when n == 0 || lt_T(value, mVal) : emits ; n' = n + 1 ; mCtx' = ctx ; mVal' = value
 //@   on next(ctx, value) when n != 0 && !lt_T(value, mVal) : emits ; n' = n + 1
 //@   on complete(ctx) when n > 0 : emits Next(mCtx, mVal), Complete(ctx)
@@ -235,6 +240,7 @@ package ro
 //@   ghost mVal val = nil
 //@   inv n >= 0 && first == (n == 0)
 //@   inv !first ==> mAx.A == mCtx && mAx.B == mVal
+//@   inv !first ==> mCtx != nil
 //@   on next(ctx, value) when n == 0 || gt_T(value, mVal) : emits ; n' = n + 1 ; mCtx' = ctx ; mVal' = value
 //@   on next(ctx, value) when n != 0 && !gt_T(value, mVal) : emits ; n' = n + 1
 //@   on complete(ctx) when n > 0 : emits Next(mCtx, mVal), Complete(ctx)
@@ -252,7 +258,7 @@ package ro
 //@   ghost acc val = seed
 //@   ghost accCtx val = nil
 //@   inv i == n && n >= 0 && output == acc
-//@   inv n > 0 ==> lastCtx == accCtx
+//@   inv n > 0 ==> lastCtx == accCtx && accCtx != nil
 //@   on next(ctx, value) : emits ; n' = n + 1 ; acc' = accumulator_1(ctx, acc, value, n) ; accCtx' = accumulator_0(ctx, acc, value, n)
 //@   on complete(ctx) when n == 0 : emits Next(ctx, acc), Complete(ctx)
 //@   on complete(ctx) when n != 0 : emits Next(accCtx, acc), Complete(ctx)
@@ -290,6 +296,7 @@ package ro
 //@   props C04 C09
 //@   ghost n int = 0
 //@   inv n >= 0 && empty == (n == 0)
+//@   given complete : defaultCtx != nil
 //@   on next(ctx, value) : emits Next(ctx, value) ; n' = n + 1
 //@   on complete(ctx) when n == 0 : emits Next(defaultCtx, defaultValue), Complete(ctx)
 //@   on complete(ctx) when n != 0 : emits Complete(ctx)
